@@ -277,7 +277,12 @@ func (db *DB) schema(of Object) (s *Schema, err error) {
 		return
 	}
 
-	return db.loadSchema(of)
+	// a schema freshly loaded also needs its async writes routine
+	if s, err = db.loadSchema(of); err == nil {
+		db.startAsyncWritesRoutine(s)
+	}
+
+	return
 }
 
 func (db *DB) itemname(o Object) string {
@@ -785,6 +790,9 @@ func (db *DB) Count(of Object) (n int, err error) {
 func (db *DB) Drop() (err error) {
 	db.Lock()
 	defer db.Unlock()
+
+	// async writes routines must not write to a dropped database
+	db.cancel()
 
 	return os.RemoveAll(db.root)
 }
